@@ -133,6 +133,13 @@ pub fn run_lines(lines: &[String], oracles: bool) -> RunResult {
         let is_end = i == lines.len();
         let line = if is_end { "h drop".to_owned() } else { lines[i].clone() };
         let mut t = Toks::new(&line);
+        if !is_end {
+            // marker: which operation the following observation lines belong to
+            let mut m = line.split(' ');
+            rr.out.obs.push(format!("@{} {}", m.next().unwrap_or(""), m.next().unwrap_or("")).trim_end().to_owned());
+        } else {
+            rr.out.obs.push("@end".into());
+        }
         match t.next() {
             Some("host") => match t.next() {
                 Some("filter") => {
